@@ -1,1 +1,155 @@
-//! shared decoder drivers
+//! Shared decoder drivers: each decodes one frame through a different public entry point with a
+//! fixed, simple schedule (schedule variation is C06's business) and reports everything observable.
+
+use ruzstd::decoding::{BlockDecodingStrategy, Dictionary, FrameDecoder, StreamingDecoder};
+use std::io::Read;
+
+#[derive(Clone, Debug, Default, PartialEq)]
+pub struct Outcome {
+    pub bytes: Vec<u8>,
+    pub consumed: u64,
+    pub calc_checksum: Option<u32>,
+    pub data_checksum: Option<u32>,
+    pub content_size: u64,
+    pub blocks: usize,
+    pub finished: bool,
+}
+
+pub const DRIVER_NAMES: [&str; 4] = ["streaming", "decode_blocks_all", "decode_all", "decode_from_to"];
+
+pub fn snapshot(dec: &FrameDecoder, bytes: Vec<u8>) -> Outcome {
+    Outcome {
+        bytes,
+        consumed: dec.bytes_read_from_source(),
+        calc_checksum: dec.get_calculated_checksum(),
+        data_checksum: dec.get_checksum_from_data(),
+        content_size: dec.content_size(),
+        blocks: dec.blocks_decoded(),
+        finished: dec.is_finished(),
+    }
+}
+
+pub fn new_decoder(dicts: &[&[u8]], max_window: Option<u64>) -> Result<FrameDecoder, String> {
+    let mut dec = FrameDecoder::new();
+    if let Some(w) = max_window {
+        dec.set_max_window_size(w);
+    }
+    for d in dicts {
+        let dict = Dictionary::decode_dict(d).map_err(|e| format!("dictionary rejected: {e}"))?;
+        dec.add_dict(dict).map_err(|e| format!("add_dict: {e}"))?;
+    }
+    Ok(dec)
+}
+
+/// Counting reader: how many bytes were pulled from the source.
+pub struct CountingReader<'a> {
+    pub data: &'a [u8],
+    pub pos: usize,
+    /// max bytes per read call (0 = unlimited)
+    pub chunk: usize,
+}
+
+impl Read for CountingReader<'_> {
+    fn read(&mut self, buf: &mut [u8]) -> std::io::Result<usize> {
+        let mut n = buf.len().min(self.data.len() - self.pos);
+        if self.chunk > 0 {
+            n = n.min(self.chunk);
+        }
+        buf[..n].copy_from_slice(&self.data[self.pos..self.pos + n]);
+        self.pos += n;
+        Ok(n)
+    }
+}
+
+pub fn run_driver(
+    which: usize,
+    frame: &[u8],
+    dicts: &[&[u8]],
+    max_window: Option<u64>,
+    expected_len: usize,
+    out_cap: usize,
+) -> Result<Outcome, String> {
+    match which {
+        0 => {
+            let dec = new_decoder(dicts, max_window)?;
+            let mut src = CountingReader {
+                data: frame,
+                pos: 0,
+                chunk: 0,
+            };
+            let mut sd = StreamingDecoder::new_with_decoder(&mut src, dec).map_err(|e| format!("init: {e}"))?;
+            let mut out = Vec::with_capacity(expected_len.min(out_cap));
+            let mut buf = vec![0u8; 4099];
+            loop {
+                let n = sd.read(&mut buf).map_err(|e| format!("read: {e}"))?;
+                if n == 0 {
+                    break;
+                }
+                out.extend_from_slice(&buf[..n]);
+                if out.len() > out_cap {
+                    return Err("output cap exceeded".into());
+                }
+            }
+            let dec = sd.into_frame_decoder();
+            Ok(snapshot(&dec, out))
+        }
+        1 => {
+            let mut dec = new_decoder(dicts, max_window)?;
+            let mut src = CountingReader {
+                data: frame,
+                pos: 0,
+                chunk: 0,
+            };
+            dec.reset(&mut src).map_err(|e| format!("init: {e}"))?;
+            dec.decode_blocks(&mut src, BlockDecodingStrategy::All)
+                .map_err(|e| format!("decode_blocks: {e}"))?;
+            let out = dec.collect().unwrap_or_default();
+            let mut o = snapshot(&dec, out);
+            if src.pos as u64 != o.consumed {
+                o.consumed = u64::MAX; // reader position disagrees with the decoder's own count
+            }
+            Ok(o)
+        }
+        2 => {
+            let mut dec = new_decoder(dicts, max_window)?;
+            let mut out = vec![0u8; expected_len];
+            let n = dec.decode_all(frame, &mut out).map_err(|e| format!("decode_all: {e}"))?;
+            out.truncate(n);
+            Ok(snapshot(&dec, out))
+        }
+        _ => {
+            let mut dec = new_decoder(dicts, max_window)?;
+            let mut out = vec![];
+            let mut buf = vec![0u8; 65536];
+            let mut pos = 0usize;
+            let mut idle = 0;
+            loop {
+                let (r, w) = dec
+                    .decode_from_to(&frame[pos..], &mut buf)
+                    .map_err(|e| format!("decode_from_to: {e}"))?;
+                if r > frame.len() - pos {
+                    return Err(format!("decode_from_to consumed {r} of {} offered bytes", frame.len() - pos));
+                }
+                pos += r;
+                out.extend_from_slice(&buf[..w]);
+                if out.len() > out_cap {
+                    return Err("output cap exceeded".into());
+                }
+                if dec.is_finished() && dec.can_collect() == 0 {
+                    break;
+                }
+                if r == 0 && w == 0 {
+                    idle += 1;
+                    if idle > 2 {
+                        return Err("decode_from_to makes no progress on a complete frame".into());
+                    }
+                }
+            }
+            let mut o = snapshot(&dec, out);
+            if pos as u64 != o.consumed {
+                o.consumed = u64::MAX;
+            }
+            Ok(o)
+        }
+    }
+}
